@@ -13,6 +13,7 @@ import Hive.Shift
 import Hive.Cycle
 import Hive.Dispatch
 import Hive.Router
+import Hive.EventLedger
 
 open Lean Hive
 
@@ -344,6 +345,14 @@ def handleRouter (j : Json) : Except String Json := do
       mon := mon ++ [s!"C13/route-shape| straight-line network {repr hq.o} -> {repr hq.d}: route {repr hq.route}"]
   pure (Json.mkObj [("diff", strs (diffs.take 8)), ("mon", strs (mon.take 12))])
 
+deriving instance FromJson for EventLedger.VehTotals
+deriving instance FromJson for EventLedger.EvRun
+
+/-- C19 whole-run record: the parsed event log, final totals and summary of one run -/
+def handleEvents (j : Json) : Except String Json := do
+  let r : EventLedger.EvRun ← fromJson? j
+  pure (Json.mkObj [("diff", strs []), ("mon", strs ((EventLedger.violEvents r).take 12))])
+
 /-- function-level record: one mechatronics operation -/
 def handleMech (j : Json) : Except String Json := do
   let m : Mech ← getField j "mech"
@@ -466,6 +475,10 @@ def handle (st : DState) (line : String) : DState × Json :=
       | .error e => (st, withId (Json.mkObj [("error", Json.str e)]))
     | "router" =>
       match handleRouter j with
+      | .ok r => (st, withId r)
+      | .error e => (st, withId (Json.mkObj [("error", Json.str e)]))
+    | "events" =>
+      match handleEvents j with
       | .ok r => (st, withId r)
       | .error e => (st, withId (Json.mkObj [("error", Json.str e)]))
     | "mech" =>
